@@ -16,6 +16,8 @@ use crate::{cel, color_profile, layer, palette, slice, tags, user_data, Tag};
 
 struct ParseInfo {
     palette: Option<Arc<palette::ColorPalette>>,
+    // Whether `palette` came from new-format (0x2019) palette chunks.
+    palette_is_new_format: bool,
     color_profile: Option<color_profile::ColorProfile>,
     layers: Vec<LayerData>,
     framedata: cel::CelsData<RawPixels>, // Vec<Vec<cel::RawCel>>,
@@ -32,6 +34,7 @@ impl ParseInfo {
     fn new(num_frames: u16, default_frame_time: u16) -> Self {
         Self {
             palette: None,
+            palette_is_new_format: false,
             color_profile: None,
             layers: Vec::new(),
             framedata: cel::CelsData::new(num_frames as u32),
@@ -70,6 +73,23 @@ impl ParseInfo {
         let idx = self.layers.len();
         self.layers.push(layer_data);
         self.user_data_context = Some(UserDataContext::LayerIndex(idx as u32));
+    }
+
+    // A palette chunk sets the entries it lists and leaves all others alone:
+    // a palette may be split over several chunks, and when the palette is
+    // edited on a later frame Aseprite writes only the range that changed.
+    // New-format chunks take precedence over old-format ones in either order.
+    fn add_palette(&mut self, palette: palette::ColorPalette, new_format: bool) {
+        match self.palette.as_mut().and_then(Arc::get_mut) {
+            Some(current) if self.palette_is_new_format == new_format => {
+                current.entries.extend(palette.entries)
+            }
+            Some(_) if !new_format => {}
+            _ => {
+                self.palette = Some(Arc::new(palette));
+                self.palette_is_new_format = new_format;
+            }
+        }
     }
 
     fn add_tags(&mut self, tags: Vec<Tag>) {
@@ -311,7 +331,7 @@ fn parse_frame<R: Read>(
             }
             ChunkType::Palette => {
                 let palette = palette::parse_chunk(&data)?;
-                parse_info.palette = Some(Arc::new(palette));
+                parse_info.add_palette(palette, true);
             }
             ChunkType::Layer => {
                 let layer_data = layer::parse_chunk(&data)?;
@@ -348,9 +368,9 @@ fn parse_frame<R: Read>(
                 // Update the chunk context to reflect the OldPalette chunk.
                 parse_info.user_data_context = Some(UserDataContext::OldPalette);
 
-                if parse_info.palette.is_none() {
+                if !parse_info.palette_is_new_format {
                     let palette = palette::parse_old_chunk_04(&data)?;
-                    parse_info.palette = Some(Arc::new(palette));
+                    parse_info.add_palette(palette, false);
                 }
             }
             ChunkType::OldPalette11 => {
@@ -358,9 +378,9 @@ fn parse_frame<R: Read>(
                 // Update the chunk context to reflect the OldPalette chunk.
                 parse_info.user_data_context = Some(UserDataContext::OldPalette);
 
-                if parse_info.palette.is_none() {
+                if !parse_info.palette_is_new_format {
                     let palette = palette::parse_old_chunk_11(&data)?;
-                    parse_info.palette = Some(Arc::new(palette));
+                    parse_info.add_palette(palette, false);
                 }
             }
             ChunkType::Tileset => {
